@@ -434,7 +434,9 @@ def oracle(c, obs, check_span=True):
         if grade is not None and k > grade:
             bad.append(tag + f"{k} columns although the Krylov space is exhausted at dimension {grade}")
         # the iteration may stop before the cap only when the remainder has fallen to tol*beta_1 (or to zero at the first step)
-        if 1 <= k < m and len(nws) >= k and nws[k - 1] > 2.0 * c["tol"] * nws[0] + 1e-6 * scale:
+        # (tol is relative to the size of the first Krylov vector: beta_1 in the pinned code, ||A q_1|| in the repaired one; either is accepted)
+        aq1 = float(np.linalg.norm(S @ v) / np.linalg.norm(v))
+        if 1 <= k < m and len(nws) >= k and nws[k - 1] > 2.0 * c["tol"] * max(nws[0], aq1) + 1e-6 * scale:
             bad.append(tag + f"only {k} of min(max_iters,n)={m} columns although the remainder after step {k} is {nws[k - 1]:.3g} "
                              f"(beta_1={nws[0]:.3g}, tol={c['tol']}): truncated factorisation")
         if check_span:
